@@ -57,7 +57,7 @@ def lookup(m):
     return d
 
 
-def api_objects(m, order=None):
+def api_objects(m, order=None, wrap=None):
     """(pair Potential list, EAMPotential list[, dipoles, quadrupoles]) through the Python API;
     element order = `order` or m['elements'] restricted to the element set"""
     b = build_api.Builder(m["env"])
@@ -73,6 +73,8 @@ def api_objects(m, order=None):
             for o in els:
                 pd = lk["density_fs"].get((e, o))
                 dens[o] = b.potdef(pd) if pd is not None else zero
+                if wrap is not None and pd is not None:
+                    dens[o] = wrap("density_fs", (e, o), dens[o])
         else:
             dens = b.potdef(lk["density"][e]) if e in lk["density"] else zero
         eams.append(ap.EAMPotential(e, Z, mass, emb, dens, a, lat))
